@@ -108,11 +108,17 @@ func c09exec(j run.Job, a *run.Acc) {
 			fs.AddFile(text.NewFile(fmt.Sprintf("pre%d", i), make([]byte, n)))
 		}
 		f := text.NewFile("f", raw)
+		var rd *text.Reader
+		if seedCase%2 == 1 { // both legal construction orders: reader before / after the file joins the set
+			rd = text.NewReader(f)
+		}
 		fs.AddFile(f)
 		if post == 1 {
 			fs.AddFile(text.NewFile("post", []byte("zzzz")))
 		}
-		rd := text.NewReader(f)
+		if rd == nil {
+			rd = text.NewReader(f)
+		}
 		base := int(f.Pos(0))
 		a.Count("files", 1)
 		d := func(what string, extra map[string]any) map[string]any {
@@ -269,6 +275,9 @@ func c09exec(j run.Job, a *run.Acc) {
 					}
 				}
 			}()
+		}
+		if got := readerBytes(f, rd); got != string(c) {
+			a.Violate("file-bytes-modified", "file-bytes-modified", d("*", map[string]any{"file_now_reads": fmt.Sprintf("%q", got)}))
 		}
 		if len(c) > 0 {
 			a.NonTrivial(fmt.Sprintf("%q@%d", raw, base))
